@@ -117,6 +117,20 @@ v('C11', 'fire', 'filters.py', '    T = error_model.transform_to_output(trajecto
 v('C14', 'fire', 'inertial_sensor.py', '                if actual != nominal:', '                if not np.isclose(actual, nominal):', 'seeded C14 round 4: table column dropped for a parameter within isclose tolerance of nominal')
 v('C14', 'silent', 'inertial_sensor.py', '                if actual != nominal:', '                if not actual == nominal:', 'same exact test, other spelling')
 v('C14', 'silent', 'inertial_sensor.py', '                if actual != nominal:', '                if actual - nominal != 0:', 'same exact test on the deviation')
+IS = 'inertial_sensor.py'
+v('C14 C12', 'fire', IS, 'P[n_states, n_states] = bias_sd[axis] ** 2', 'P[n_states, n_states] = bias_sd[axis] ** 3', 'survey: initial covariance is not the squared sd')
+v('C14', 'fire', IS, 'G[n_states, n_noises] = 1', 'G[n_states, n_noises] = 2', 'survey: noise input gain')
+v('C14', 'fire', IS, 'F = np.zeros((self.MAX_STATES, self.MAX_STATES))', 'F = np.ones((self.MAX_STATES, self.MAX_STATES))', 'survey: dynamics matrix not zero')
+v('C14', 'fire', IS, '            if bias_sd[axis] > 0:', '            if bias_sd[axis] > 1:', 'survey: enable threshold')
+v('C14', 'fire', IS, '            if noise[axis] > 0:', '            if noise[axis] >= 0:', 'survey: a disabled axis gets a noise column')
+v('C14', 'fire', IS, 'MAX_STATES = 12', 'MAX_STATES = 6', 'survey: buffer too small for the full model')
+v('C14', 'fire', IS, '        for output_axis in range(3):', '        for output_axis in range(2):', 'survey: z row of the scale/misalignment matrix never modelled')
+v('C14', 'fire', IS, 'if readings.ndim == 1:', 'if readings.ndim != 1:', 'survey: output matrix arms exchanged')
+v('C14', 'fire', IS, '(1 if axis_out == axis_in else 0))', '(1 if axis_out != axis_in else 0))', 'survey: nominal transform in the read-back')
+v('C14', 'fire', IS, 'v[n_output_noises] = noise[axis]', 'v[n_output_noises] = noise[axis] ** 2', 'output noise intensity squared at the producer only')
+v('C14', 'silent', IS, 'P[n_states, n_states] = bias_sd[axis] ** 2', 'P[n_states, n_states] = bias_sd[axis] * bias_sd[axis]')
+v('C14', 'silent', IS, '            if bias_sd[axis] > 0:', '            if not bias_sd[axis] <= 0:')
+v('C14', 'silent', IS, 'H = np.zeros((3, self.MAX_STATES))', 'H = np.zeros((3, 2 * self.MAX_STATES))', 'larger scratch buffer')
 v('C07', 'fire', KA, '    S = HP @ H.T + R\n', '    S = HP @ H.T + R\n    S[np.diag_indices_from(S)] += 1e-10\n', 'seeded C07 round 4: absolute jitter on the innovation covariance')
 _LEV = ('        if self.imu_to_antenna_b is not None:\n            mat_nb = transform.mat_from_rph(pva[RPH_COLS])\n'
         '            z += mat_nb @ self.imu_to_antenna_b\n')
